@@ -346,7 +346,12 @@ class Collector:
         key = []
         for loop_rank in loop_ranks[er_ind + 1:tree_ind]:
             if loop_rank in tensor_ir.get_ranks():
-                key.append(EVar(loop_rank.lower()))
+                # Note: the loop over a flattened rank binds one variable per
+                # flattened rank rather than a variable for the rank itself
+                iter_ranks = self.program.get_loop_order().get_iter_ranks(
+                    loop_rank)
+                key.extend(EVar(iter_rank.lower())
+                           for iter_rank in iter_ranks)
         key_tuple = ETuple(tuple(key))
 
         cond = EBinOp(key_tuple, ONotIn(), EVar(trace))
